@@ -696,6 +696,12 @@ func (l *lexer) lexToken(tok int) action {
 }
 
 func (l *lexer) lexRedir() action {
+	return l.lexRedirs(true)
+}
+
+// lexRedirs scans the redirections of a compound command. A reserved word
+// is only recognized directly after the compound command.
+func (l *lexer) lexRedirs(first bool) action {
 	tok := l.scanToken()
 	switch tok {
 	case '<', '>', CLOBBER, APPEND, HEREDOC, HEREDOCI, DUPIN, DUPOUT, RDWR:
@@ -706,6 +712,9 @@ func (l *lexer) lexRedir() action {
 	case IO_NUMBER:
 		goto Redir
 	case WORD:
+		if !first {
+			break
+		}
 		// reserved word following a compound command
 		switch tok = l.tr(tok); tok {
 		case Elif:
@@ -721,7 +730,7 @@ func (l *lexer) lexRedir() action {
 	return l.lexToken(tok)
 Redir:
 	l.emit(tok)
-	return l.lexRedir
+	return func() action { return l.lexRedirs(false) }
 }
 
 func (l *lexer) lexHeredoc() action {
